@@ -15,7 +15,43 @@ type WaitGroup = vsched.WaitGroup
 type Once = vsched.Once
 type Cond = vsched.Cond
 type Locker = sync.Locker
-type Pool = sync.Pool
+
+// Pool stands in for sync.Pool: same API, but deterministic (last in, first out; nothing is ever
+// dropped).  sync.Pool may hand back any item that was Put, or a new one; which one depends on the
+// P the goroutine runs on and on garbage collections, i.e. on things the explorer does not own.
+// LIFO is one of the behaviours sync.Pool allows, so this is an under-approximation that makes
+// executions replayable; in particular an item that was Put twice IS handed out twice.
+type Pool struct {
+	New func() interface{}
+
+	mu    sync.Mutex
+	items []interface{}
+}
+
+func (p *Pool) Get() interface{} {
+	p.mu.Lock()
+	if n := len(p.items); n > 0 {
+		x := p.items[n-1]
+		p.items[n-1] = nil
+		p.items = p.items[:n-1]
+		p.mu.Unlock()
+		return x
+	}
+	p.mu.Unlock()
+	if p.New != nil {
+		return p.New()
+	}
+	return nil
+}
+
+func (p *Pool) Put(x interface{}) {
+	if x == nil {
+		return
+	}
+	p.mu.Lock()
+	p.items = append(p.items, x)
+	p.mu.Unlock()
+}
 type Map = sync.Map
 
 func NewCond(l Locker) *Cond { return vsched.NewCond(l) }
